@@ -402,3 +402,82 @@ _targets_elements = targets
 
 def targets():      # noqa: F811
     return _targets_elements() + [target_container_copy("__copy__"), target_container_copy("__deepcopy__")]
+
+
+# ------------------------------------------------------------------------------------------------ set_label (data flow)
+def target_set_label():
+    """Element.set_label on an opaque string term: what is stored is strip(label); every validation question (non-empty,
+    all ASCII, all digits) is asked about the very text that is stored; the label is refused exactly when that text is not
+    ASCII or consists of digits only, and a refused call leaves the old label in place."""
+    from pyvc import overload as O
+    from . import dataflow as DF
+    BASE = "circuit/base"
+    qual = "Element.set_label"
+
+    def run(sess: Session):
+        n = 0
+
+        def once():
+            asked = []
+
+            class S:
+                """string term: strip() is idempotent, comparisons and character-class tests are oracle decisions on the term"""
+
+                def __init__(self, t):
+                    self.t = t
+
+                def strip(self):
+                    return self if self.t.startswith("strip(") else S(f"strip({self.t})")
+
+                def __eq__(self, o):
+                    v = DF.ORACLE.decide("eq", f"eq({self.t},{o!r})")
+                    asked.append(("eq", self.t, o, v))
+                    return v
+
+                def __ne__(self, o):
+                    return not self.__eq__(o)
+                __hash__ = None
+
+            class StrNS:
+                isascii, isdigit = "isascii", "isdigit"
+
+            def all_(m):
+                v = DF.ORACLE.decide("all", f"all({m[1]},{m[2].t})")
+                asked.append((m[1], m[2].t, None, v))
+                return v
+
+            class Me:
+                _label = "OLD"
+            me = Me()
+            ns = {"isinstance": lambda a, b: True, "str": StrNS, "map": lambda f, x: ("map", f, x), "all": all_}
+            O.load(BASE, [qual], ns)
+            err = None
+            try:
+                ns["set_label"](me, S("label"))
+            except ValueError as ex:
+                err = ex
+            return me, asked, err
+        for log, (me, asked, err), facts in DF.explore(once):
+            n += 1
+            tag = "[" + ",".join(f"{a[0]}={a[3]}" for a in asked) + "]"
+            empty = next((a[3] for a in asked if a[0] == "eq" and a[2] == ""), None)
+            ascii_ = next((a[3] for a in asked if a[0] == "isascii"), None)
+            digit = next((a[3] for a in asked if a[0] == "isdigit"), None)
+            if err is None:
+                stored = me._label
+                ok = hasattr(stored, "t") and stored.t == "strip(label)"
+                sess.check("post", [], z3.BoolVal(ok), 0, label=f"stored label == label.strip(){tag}")
+                sess.check("post", [], z3.BoolVal(ok and all(a[1] == stored.t for a in asked)), 0, label=f"every validation question is asked about the stored text{tag}")
+                sess.check("post", [], z3.BoolVal(empty is True or (empty is False and ascii_ is True and digit is False)), 0, label=f"accepted only if empty, or ASCII and not all digits (both asked){tag}")
+            else:
+                sess.check("post", [], z3.BoolVal(me._label == "OLD"), 0, label=f"a refused label leaves the old one{tag}")
+                sess.check("post", [], z3.BoolVal(empty is False and (ascii_ is False or digit is True) and all(a[1] == "strip(label)" for a in asked)), 0, label=f"refused only for a non-empty stripped text that is not ASCII or all digits{tag}")
+        sess.check("cover", [], z3.BoolVal(n == 4), 0, label=f"paths={n}")
+    return (f"{BASE}:{qual}", BASE, qual, run)
+
+
+_targets_without_label = targets
+
+
+def targets():      # noqa: F811
+    return _targets_without_label() + [target_set_label()]
